@@ -76,6 +76,15 @@ add("C02", "Hypothesis-drawn derivation requests and model Hamiltonians; referen
     "every derived expression is evaluated on the model (amplitudes := RSPT wavefunction coefficients) and compared exactly with the RSPT value for every index assignment.",
     "Trusted: fock.py + rspt.py (self test: (H0 + lambda H1) Psi = E Psi order by order, anticommutators). Orders <= 3 (quick) / 4 (thorough).")
 
+add("C03", "Hypothesis-drawn secular-matrix requests and model Hamiltonians; reference model = explicit intermediate-state construction (RSPT, Gram-Schmidt, S^-1/2 matrix power series) in determinant space over F_p",
+    "Generated-input search: isr_matrix_block / precursor_matrix_block / mvp_block_order for pp, ip, ea, dip, dea, diagonal and coupling blocks of the two lowest classes, orders <= 2 (3 for the lowest class in the thorough tier), subtract_gs on/off, "
+    "generated index names, 4 model sizes, canonical and non-canonical Fock matrices; every element for every bra/ket assignment compared exactly; transpose relation between independently derived blocks; block_order vs. the ADC(n) rule.",
+    "Trusted: fock.py, rspt.py, isr.py (self test: orthonormality of the explicit states order by order, M symmetric). Expensive blocks are capped in order (see N/caps in c03.py).")
+add("C04", "Hypothesis-drawn overlap requests evaluated on random amplitude tensors; oracle: antisymmetrised delta product from bit-string algebra at zeroth order, zero array otherwise; symmetry of the precursor overlap",
+    "Generated-input search: overlap_isr for all five variants, class pairs, orders <= 2 (3), mp/re, with/without first-order singles, generated index names, complex-conjugate amplitudes aliased or independent; "
+    "the (unsimplified) derived overlap must cancel numerically for arbitrary amplitude values.",
+    "Trusted: F_p evaluator, fock.vev. No Hamiltonian is involved: the identity is algebraic in the amplitudes.")
+
 NOT_YET = "check not built yet in this round (planned, see DESIGN.md)"
 
 def main():
